@@ -64,19 +64,9 @@ _C = None
 def get_corpus():
     global _C
     if _C is None:
-        import ndn.utils as u
-        from mc.ndnenv import Counter32
-        old_t, old_r = u.time, u.randint
-
-        class T:
-            @staticmethod
-            def time():
-                return 1_700_000_000.0
-        u.time, u.randint = T, Counter32(3).randint
-        try:
+        from mc.ndnenv import FixedClock
+        with owned_env(clock=FixedClock(), seed=3):
             _C = corpus()
-        finally:
-            u.time, u.randint = old_t, old_r
     return _C
 
 
